@@ -145,6 +145,12 @@ RESTORE:
 			if err := restoreBigRdbEntry(rr.Client, e); err != nil {
 				return err
 			}
+			// the RESTORE that failed carried the ttl, the expanded commands do not
+			if e.ExpireAt != 0 {
+				if _, err := common.Int64(rr.Client.Do("pexpire", e.Key, ttlms)); err != nil {
+					return fmt.Errorf("expire key error : key(%s), error(%w)", e.Key, err)
+				}
+			}
 		} else {
 			return fmt.Errorf("restore command error : key(%s), error(%w)", e.Key, err)
 		}
